@@ -31,6 +31,8 @@ func init() {
 	allowPanic("(*proxy.client).localIP:panic:\"unhandled local address type\"", "listeners are created by resolveAndListen with network \"tcp\" only, so LocalAddr() is always *net.TCPAddr: configuration, not peer input")
 	allowPanic("(*proxy.request).handleErrorResult:typeassert:invoke (github.com/datastax/go-cassandra-native-protocol/frame.RawConverter).ConvertFromRawFrame#0.Body.Message.(message.Error)",
 		"only reached for opcode ERROR (rule C17.error-opcode); the library's error codec returns only types implementing message.Error")
+	allowPanic("(*codecs.FrameBodyReader).BytesSince:slice:r.Body[pos:(*github.com/datastax/cql-proxy/codecs.FrameBodyReader).Position()]", "pos is an earlier Position() of the same reader and the position of a bytes.Reader only grows up to len(Body) as long as nothing seeks it: rule C17.reader-position decides that no code moves the reader with Seek")
+	allowPanic("(*codecs.FrameBodyReader).RemainingBytes:slice:r.Body[(*github.com/datastax/cql-proxy/codecs.FrameBodyReader).Position():]", "0 <= Position() <= len(Body) for a bytes.Reader that is only read from (C17.reader-position)")
 	allowPanic("(*proxycore.ClientConn).Handshake:index:startupKeysAndValues[(i+1)]", "i steps by 2 below len and the even length is checked at entry; the slice is built by the proxy, not by a peer")
 	allowPanic("(*proxycore.ClientConn).maybeCachePrepared:typeassert:invoke (proxycore.Request).Frame().(*frame.RawFrame)",
 		"only for requests with IsPrepareRequest()==true: client PREPAREs are forwarded as the raw frame and prepareRequest holds a raw copy; internal requests never send PREPARE")
@@ -107,6 +109,7 @@ func checkC17(p *Prog, r *Report) {
 	c17NilStore(p, r)
 	c17OffenderOnly(p, r)
 	c17BlockingSend(p, r)
+	readerPosition(p, r, "C17.reader-position")
 	rr := requestRoles(p)
 	c05Progress17(p, r, rr)
 }
@@ -589,4 +592,37 @@ func c17BlockingSend(p *Prog, r *Report) {
 	if n < 5 {
 		fatalf("rule %s: only %d channel sends found (7 confirmed by hand)", rule, n)
 	}
+}
+
+// readerPosition: the frame body reader is only ever read from; Seek is used to ask for the
+// current position and for nothing else.  The slices taken of the body (BytesSince,
+// RemainingBytes) rely on 0 <= position <= len(body), which a Seek with a computed offset breaks
+// (bytes.Reader allows seeking past the end).
+func readerPosition(p *Prog, r *Report, rule string) {
+	r.Rule(rule, "the reader over a frame body is moved only by reading: every Seek on it is Seek(0, io.SeekCurrent), the position query (a computed seek can leave the position beyond the body, and the body slices taken afterwards panic or expose stale bytes)")
+	var bad []string
+	n := 0
+	for _, fn := range p.ScopedFuncs("codecs", "proxy", "proxycore") {
+		eachCall(fn, func(c ssa.CallInstruction) {
+			cm := c.Common()
+			name := ""
+			var args []ssa.Value
+			switch {
+			case cm.IsInvoke() && cm.Method.Name() == "Seek":
+				name, args = "Seek", cm.Args
+			case cm.StaticCallee() != nil && cm.StaticCallee().Name() == "Seek" && cm.StaticCallee().Signature.Recv() != nil:
+				name, args = "Seek", cm.Args[1:]
+			}
+			if name == "" || len(args) != 2 {
+				return
+			}
+			n++
+			off, ok1 := constInt(args[0])
+			wh, ok2 := constInt(args[1])
+			if !ok1 || !ok2 || off != 0 || wh != 1 {
+				bad = append(bad, fmt.Sprintf("%s: %s moves a reader with Seek(%s, %s)", p.Pos(c.Pos()), fn.Name(), valDesc(args[0]), valDesc(args[1])))
+			}
+		})
+	}
+	r.check(len(bad) == 0 && n > 0, rule, "Seek call sites", "", fmt.Sprintf("%d position queries", n), strings.Join(dedupe(bad), " || "))
 }
